@@ -94,6 +94,10 @@ TraceNext ==
        \/ /\ e.ev = "SetCutoff"
           /\ SetCutoff(e.c)
           /\ obs' = ObsOf(e) /\ n' = n + 1 /\ UNCHANGED << verdict, seenG, seenT >>
+       \/ /\ e.ev = "Extend"
+          /\ Extend(e.name)
+          /\ verdict' = Worse(verdict, IF e.snap # store' THEN Drift("store_as_spec") ELSE Ok)
+          /\ obs' = ObsOf(e) /\ n' = n + 1 /\ UNCHANGED << seenG, seenT >>
        \/ /\ e.ev = "RenderTable"
           /\ RenderTable(e.fmt)
           /\ verdict' = Worse(verdict, JudgeText(e, e.fmt, obs.dig, RenderOp(store, e.fmt)))
